@@ -32,6 +32,13 @@ func (c *Ctx) N(quick, thorough int) int {
 var runners = map[string]func(*Ctx) error{}
 
 func main() {
+	if cs := os.Getenv("VERIF_COLD"); cs != "" { // child of the C18 runner: see coldStart
+		var seed uint64
+		fmt.Sscan(cs, &seed)
+		os.Unsetenv("VERIF_COLD")
+		coldStart(seed)
+		return
+	}
 	prop := flag.String("prop", "", "property id")
 	tier := flag.String("tier", "quick", "quick|thorough")
 	seed := flag.Uint64("seed", 1, "PRNG seed")
